@@ -96,6 +96,23 @@ impl Region {
         Self::with_misalign(p, bytes, 0, false)
     }
 
+    /// Like `new`, but under Miri/heap placement the *allocation* holds at least
+    /// `min_alloc` bytes (the region proper stays `bytes.len()`). Used for
+    /// standalone tags that are cast to a sized type bigger than the tag:
+    /// `cast` forms the (too large) reference before its size assertion
+    /// panics; nothing is read through it and it is never handed out, but
+    /// Miri's validity check on reference creation would end the run. No
+    /// property speaks about that transient reference (DESIGN §5).
+    pub fn new_slack(p: Placement, bytes: &[u8], min_alloc: usize) -> Region {
+        match p {
+            Placement::Heap => Self::heap_min(bytes, 0, min_alloc),
+            #[cfg(miri)]
+            Placement::Guard => Self::heap_min(bytes, 0, min_alloc),
+            #[cfg(not(miri))]
+            Placement::Guard => Self::new(p, bytes),
+        }
+    }
+
     /// Left-flush variant (guards against reads *before* the region).
     pub fn new_left(p: Placement, bytes: &[u8]) -> Region {
         Self::with_misalign(p, bytes, 0, true)
@@ -167,8 +184,12 @@ impl Region {
     }
 
     fn heap(bytes: &[u8], misalign: usize) -> Region {
+        Self::heap_min(bytes, misalign, 0)
+    }
+
+    fn heap_min(bytes: &[u8], misalign: usize, min_alloc: usize) -> Region {
         let len = bytes.len();
-        let total = len + misalign;
+        let total = (len + misalign).max(min_alloc);
         if total == 0 {
             return Region {
                 ptr: 8 as *mut u8,
@@ -185,6 +206,9 @@ impl Region {
             }
             let ptr = base.add(misalign);
             core::ptr::copy_nonoverlapping(bytes.as_ptr(), ptr, len);
+            for i in misalign + len..total {
+                *base.add(i) = 0xA5;
+            }
             Region {
                 ptr,
                 len,
@@ -247,7 +271,7 @@ impl Drop for Region {
 #[cfg(not(miri))]
 extern "C" fn on_signal(sig: i32, _info: *mut u8, _ctx: *mut u8) {
     // async-signal-safe: format by hand, write(2), _exit(2)
-    let mut buf = [0u8; 64];
+    let mut buf = [0u8; 96];
     let mut n = 0;
     for &b in b"\nCRASH sig=" {
         buf[n] = b;
@@ -259,6 +283,11 @@ extern "C" fn on_signal(sig: i32, _info: *mut u8, _ctx: *mut u8) {
         n += 1;
     }
     n += fmt_u64(CURRENT_CASE.load(Ordering::Relaxed), &mut buf[n..]);
+    for &b in b" pos=" {
+        buf[n] = b;
+        n += 1;
+    }
+    n += fmt_u64(crate::util::CURRENT_POS.load(Ordering::Relaxed), &mut buf[n..]);
     buf[n] = b'\n';
     n += 1;
     unsafe {
